@@ -1,6 +1,7 @@
 package main
 
 import (
+	"strings"
 	"os"
 )
 
@@ -166,6 +167,14 @@ func init() {
 			"type-switch bindings; closures created before a yield and called after it; oracle: trace equality with native Go scoping (reference) and the output must build; " +
 			"non-trivial = the program shadows a name or captures locals in a closure, and the trace has >= 1 yield followed by generator-side events; distinct by hash(program)+input")
 		table := scopingTable()
+		for i, sh := range consumerShapes {
+			// range variables of consumer loops written inside (or beside) generators, redeclared in the loop body
+			if strings.Contains(sh.name, "redeclared") {
+				q := mkShapeProgram("S"+itoa(1000+i), sh)
+				q.tag("shadow")
+				table = append(table, q)
+			}
+		}
 		rs.exh = append(rs.exh, "scoping table: "+itoa(len(table))+" programs (shadow site x declaration form {:=, var, var typed})")
 		spec := &diffSpec{
 			fixed: table,
